@@ -15,8 +15,8 @@ CLAIMED = {
    note="Assumes go/ssa faithful, z3 sound, std-lib models (Sprintf, strconv digit formatting, strings.Index/Count) differential-tested; percentage reader also accepts the documented factor form and empty string. Bounds: strings <= 5 bytes quick / 8 thorough fully symbolic; long digit strings 17-20+0-2 digits. Known finding: MinInt64 printing.",
    ref="DESIGN.md 5 (C06)"),
  "C13": dict(
-   text="Bounded model checking of the real check-digit validators (DE, IT, FR VAT+SIREN, PL, GR, AT, BE, CH, NL, PT, BR, IN, ES DNI/NIE/CIF, CO in thorough, common Luhn) with z3: for every ASCII string of the national length (and +-1) the solver shows accepted <=> national format and check digit per a reference statement of the published algorithm, and for IT/FR/PL/CH (DE/AT thorough) that no two accepted codes differ in exactly one digit (2-safety). Regular expressions are evaluated as NFAs built from the pattern strings in the package initialisers.",
-   note="Assumes go/ssa faithful, z3 sound, reference algorithms transcribed from the cited national sources. ES organisation codes: sandwich between the lenient (digit or letter control) and the strict official rule. Outside: GB, MX; normalisers; non-ASCII bytes; reflection-driven dispatch from tax.Identity.Validate. Defect found and fixed: NL accepted signs (2e5c770).",
+   text="Bounded model checking of the real check-digit validators (DE, IT, FR VAT+SIREN, PL, GR, AT, BE, CH, NL, PT, BR, IN, ES DNI/NIE/CIF, CO in thorough, common Luhn) with z3: for every ASCII string of the national length (and +-1) the solver shows accepted <=> national format and check digit per a reference statement of the published algorithm, and for IT/FR/PL/CH (DE/AT thorough) that no two accepted codes differ in exactly one digit (2-safety). Regular expressions are evaluated as NFAs built from the pattern strings in the package initialisers. Normalisation: for every ASCII string of 1..4 (6) bytes tax.NormalizeIdentity is idempotent, insensitive to separators, letter case and a leading country prefix, keeps the digits in order and yields only capitals and digits; the Swiss normaliser maps a valid UID written with any VAT suffix in any letter case and with separators to the bare code.",
+   note="Assumes go/ssa faithful, z3 sound, reference algorithms transcribed from the cited national sources. ES organisation codes: sandwich between the lenient (digit or letter control) and the strict official rule. Outside: GB, MX; regime-specific normalisers other than CH; non-ASCII bytes; reflection-driven dispatch from tax.Identity.Validate. Defect found and fixed: NL accepted signs (2e5c770).",
    ref="DESIGN.md 5 (C13)"),
  "C11": dict(
    text="Leaf level only, bounded model checking with z3: for the string-valued leaf types whose published schema carries a pattern, a length limit or a format (cbc.Key, cbc.Code, l10n.Code, cal.Date, cal.DateTime) the solver shows that whatever the Go side accepts is written as text the published schema file accepts: every ASCII string of 1..4 (6) bytes accepted by Validate matches the published pattern and length limits (read from data/schemas at run time), a string longer than the published maximum is refused, and every date / date-time accepted by Validate (year, month, day, hour, minute, second symbolic around and far beyond their ranges) prints as RFC 3339 full-date / the published date-time pattern.",
